@@ -63,8 +63,40 @@ GRAMMARS = {
         "<use>": ["<v>=<v>"],
         "<v>": ["p", "q"],
     },
+    # terminals that LOOK like nonterminals (start with '<' / end with '>' but is_nonterminal says no:
+    # they contain a space, or are unbalanced) as siblings in recursive expansions
+    "html": {
+        "<start>": ["<doc>"],
+        "<doc>": ["<item>", "<item><doc>"],
+        "<item>": ["<hr /><item>", "<a b><doc><c d>", "<text>", "<item><br />"],
+        "<text>": ["t", "u", "<text>< ><text>"],
+    },
+    "angle": {
+        "<start>": ["<cmp>"],
+        "<cmp>": ["<num><<cmp>", "<num>><num>", "<num>", "<a<cmp>"],
+        "<num>": ["1", "<num>< ><num>", "<<num>>"],
+    },
 }
 CANON = {k: canonical(g) for k, g in GRAMMARS.items()}
+
+
+def lookalike(sym):
+    """terminal symbol that a startswith('<') / endswith('>') test would take for a nonterminal"""
+    return (sym.startswith("<") or sym.endswith(">")) and not is_nonterminal(sym)
+
+
+LOOKALIKE_GRAMMARS = [k for k, cg in CANON.items() if any(lookalike(x) for alts in cg.values() for a in alts for x in a)]
+assert {"<hr />", "<a b>", "<c d>", "<br />", "< >"} <= {x for a in CANON["html"].values() for b in a for x in b}
+assert {"<", ">", "< >", "<a"} <= {x for a in CANON["angle"].values() for b in a for x in b}
+
+
+def open_one_lookalike(t):
+    """copy of t in which the first childless closed look-alike terminal is an OPEN leaf (children None),
+    ids kept; None if there is no such node.  Used as negative control of the acceptance procedure."""
+    for p, n in t.paths():
+        if n.children is not None and not n.children and lookalike(n.value):
+            return t.replace_path(p, T(n.value, None, id=n.id))
+    return None
 METHOD_NAMES = {1: "direct", 2: "self", 4: "context"}
 
 
@@ -269,12 +301,14 @@ def run(run):
     thorough = run.tier == "thorough"
     T.next_id = max(T.next_id, 1)   # id 0 is the model's marker for "fresh"
     run.cov["rule"] = (
-        "5 grammars (assignment language, mini-XML, arithmetic, nullable/recursive, nested blocks); hosts = random "
+        "7 grammars (assignment language, mini-XML, arithmetic, nullable/recursive, nested blocks, and two with terminals "
+        "that look like nonterminals: <hr />, <a b>, <c d>, <br />, < >, <, >, <a as siblings in recursive expansions); hosts = random "
         "derivations from <start> (depth 2..6, both epsilon shapes), closed or with 1..3 inner nodes pruned to open "
         "leaves keeping ids; inserted trees = random derivations of a random nonterminal (closed or 30% open leaves); "
         "insert_tree called with the real GrammarGraph, max_num_solutions in {2,5,10,50}, for ALL 7 non-empty method "
         "masks; every returned tree goes through insertedb (proved = spec) in Coq, and the whole result list is "
-        "compared with the Gallina model insert_tree. non-trivial = host has >=3 nodes and the inserted root symbol "
+        "compared with the Gallina model insert_tree; negative controls (a real result with one look-alike terminal leaf "
+        "turned into an open leaf) must be rejected. non-trivial = host has >=3 nodes and the inserted root symbol "
         "is reachable (grammar graph) from the symbol of >=1 host node")
     proof_ok = run.proof_stage()
     findings = load_findings()
@@ -305,7 +339,7 @@ def run(run):
             run.known(e["what"])
 
     # ---- 1. generated calls of insert_tree ----
-    npairs = 400 if thorough else 92
+    npairs = 420 if thorough else 112
     per_shard = 6
     by_grammar = collections.defaultdict(list)   # gname -> list of pair records
     hist = collections.Counter()
@@ -326,7 +360,7 @@ def run(run):
         nt_case = nontrivial(graph, host, ins)
         hist["host_open" if host.is_open() else "host_closed"] += 1
         hist["ins_open" if ins.is_open() else "ins_closed"] += 1
-        rec = {"g": gname, "host": host, "ins": ins, "max": maxn, "outs": {}}
+        rec = {"g": gname, "host": host, "ins": ins, "max": maxn, "outs": {}, "neg": {}}
         for m in range(1, 8):
             o = impl_insert(cg, graph, ins, host, maxn, m)
             calls += 1
@@ -337,6 +371,14 @@ def run(run):
             else:
                 hist[f"results_m{m}"] += len(o[1])
                 hist["calls_with_results" if o[1] else "calls_without_results"] += 1
+                if gname in LOOKALIKE_GRAMMARS:
+                    hist[f"lookalike_grammar_calls_m{m}"] += 1
+                    with_la = [r for r in o[1] if any(lookalike(n.value) for _, n in r.paths())]
+                    hist[f"results_with_lookalike_terminal_m{m}"] += len(with_la)
+                    if with_la:
+                        neg = open_one_lookalike(with_la[0])
+                        if neg is not None:
+                            rec["neg"][m] = neg
         rec["keep"] = keep
         by_grammar[gname].append(rec)
         if it < 3:
@@ -365,6 +407,11 @@ def run(run):
                     for mode in (0, 1, 2):
                         cs.append(f"({mode}%nat, ({m}%nat, {rec['max']}%nat, {inn}, {hn}, R{j}_{m}))")
                         ms.append((mode, m, rec))
+                    if m in rec["neg"]:
+                        rdefs += (f"Definition N{j}_{m} : res (list tree) := "
+                                  f"(Ok [{e.enc(rec['neg'][m], rec['keep'])[0]}]).\n")
+                        cs.append(f"(3%nat, ({m}%nat, {rec['max']}%nat, {inn}, {hn}, N{j}_{m}))")
+                        ms.append((3, m, rec))
             shards.append((e.text() + gdefs + rdefs, cs))
             smeta.append(ms)
     ok_def = ("fun c : nat * (nat * nat * tree * tree * res (list tree)) => let '(mode, (m, mx, i, h, r)) := c in "
@@ -372,14 +419,16 @@ def run(run):
               "| 0 => match r with Ok rs => forallb (insertedb G h i) rs | Raise _ => false end "
               "| 1 => match r with Ok rs => forallb (fun t => insertedb G h i t || (K_ctx m && inserted_lossyb G h i t)) rs "
               "       | Raise _ => false end "
-              "| _ => res_eqb (list_eqb tree_eqb) (insert_tree G CH PB mx m i h) r end")
-    strict_fail, lossy_fail, model_diff = [], [], []
+              "| 2 => res_eqb (list_eqb tree_eqb) (insert_tree G CH PB mx m i h) r "
+              "| _ => match r with Ok rs => forallb (fun t => negb (wf_treeb G t) && negb (insertedb G h i t) "
+              "                                               && negb (inserted_lossyb G h i t)) rs | Raise _ => false end end")
+    strict_fail, lossy_fail, model_diff, neg_accepted = [], [], [], []
     try:
         bad, dt = lib.coq_run_shards("c13a", "Insert", ok_def, shards)
         run.cov["coq_seconds_insert_tree"] = round(dt, 1)
         for (k, i) in bad:
             mode, m, rec = smeta[k][i]
-            (strict_fail, lossy_fail, model_diff)[mode].append((m, rec))
+            (strict_fail, lossy_fail, model_diff, neg_accepted)[mode].append((m, rec))
     except RuntimeError as e:
         run.violation({"kind": "correspondence-not-evaluable", "obligation": "Insert.v insert_tree cases",
                        "error": str(e)[-2000:]}, found_input=False)
@@ -436,6 +485,26 @@ def run(run):
             w.update(extra)
         return w
 
+    # negative controls: a real result in which one look-alike terminal leaf was turned into an OPEN leaf
+    # must be rejected by wf_treeb / insertedb / inserted_lossyb (Coq) and by the python reference
+    nneg = 0
+    for recs in by_grammar.values():
+        for rec in recs:
+            for m, neg in rec["neg"].items():
+                nneg += 1
+                v = spec_verdict(CANON[rec["g"]], rec["host"], rec["ins"], neg)
+                if v[0] or v[1] or wf(CANON[rec["g"]], neg):
+                    neg_accepted.append((m, rec))
+    run.cov["negative_controls_open_terminal"] = nneg
+    if neg_accepted:
+        m, rec = neg_accepted[0]
+        run.violation({"kind": "acceptance procedure accepts a tree with an OPEN terminal node (negative control)",
+                       "grammar": rec["g"], "methods": m, "tree": tree_json(rec["neg"][m]),
+                       "obligation": "Insert.insertedb / Grammar.wf_treeb / harness spec_verdict reject open terminals"},
+                      found_input=False)
+    if not thorough and nneg < 20:
+        run.violation({"kind": "too few negative controls / look-alike terminals not exercised", "count": nneg,
+                       "obligation": "harness/c13.py generators (html, angle grammars)"}, found_input=False)
     run.cov["disagreements_checked"] = len(strict_fail) + len(model_diff) + len(ptt_diff)
     known_hits = 0
     reported = False
